@@ -99,8 +99,12 @@ impl BarState {
         self.state.est.prev_steps = self.state.pos();
     }
 
-    /// The position the bar starts from is not progress made since its creation.
-    pub(crate) fn set_initial_position(&mut self, pos: u64) {
+    /// The position the bar starts from is not progress made since its creation. (A position
+    /// behind the progress the estimator has seen is a backwards seek like any other.)
+    pub(crate) fn set_initial_position(&mut self, now: Instant, pos: u64) {
+        if pos < self.state.est.prev_steps {
+            self.state.est.reset(now);
+        }
         self.state.set_pos(pos);
         self.state.est.prev_steps = pos;
     }
